@@ -145,9 +145,11 @@ def blob_to_csv(
         for col in csv_df.columns:
             if col == 'cell_id':
                 continue
-            if 'name' in col or 'label' in col or 'alias' in col:
+            # (decided by the suffix of the column name: the level's
+            # own name may contain any of these words)
+            if col.endswith(('_name', '_label', '_alias')):
                 continue
-            if confidence_label in col:
+            if col.endswith(f'_{confidence_label}'):
                 continue
             columns_to_drop.append(col)
 
@@ -199,14 +201,12 @@ def blob_to_df(
     df = pd.DataFrame(records)
 
     for col in df.columns:
+        # (decided by the suffix of the column name: the level's own
+        # name may contain any of these words)
         convert_to_category = False
-        if 'label' in col:
+        if col.endswith(('_label', '_name', '_alias')):
             convert_to_category = True
-        elif 'name' in col:
-            convert_to_category = True
-        elif 'alias' in col:
-            convert_to_category = True
-        elif 'assignment' in col:
+        elif '_runner_up_assignment_' in col:
             convert_to_category = True
 
         if convert_to_category:
